@@ -84,6 +84,22 @@ def install_fault(sim, fault):
                 if not vs:
                     return
                 target = vs[fault.get('target_index', -1) % len(vs)].proc
+            if str(fault.get('target', '')).startswith('frame-local:'):
+                # kill the process of the worker object bound to a local variable of the triggering frame
+                import sys as _sys
+                var = fault['target'].split(':', 1)[1]
+                f = _sys._getframe(1)
+                target = None
+                while f is not None:
+                    if f.f_code.co_qualname == fault.get('qualname') and var in f.f_locals:
+                        w = f.f_locals[var]
+                        pr = sim.procs.get(getattr(w, 'pid', None))
+                        if pr is not None and pr is not sim.root_proc and pr.alive:
+                            target = pr
+                        break
+                    f = f.f_back
+                if target is None:
+                    return
             if fault.get('target') == 'server':
                 sp = server_procs(sim)
                 if sp:
